@@ -796,6 +796,43 @@ func init() {
 			}
 			return c.Forall([]*Term{k}, body)
 		},
+		"closureIs": func(m *Machine, st *State, fr *Frame, instr ssa.Instruction, fn *ssa.Function, args []Value) Value {
+			f := args[0].(*Term)
+			name := constStringArg(instr, 1)
+			target := m.P.Funcs[name]
+			if target == nil {
+				m.problem("closureIs: function %q not found in the current tree", name)
+				return m.ctx.F
+			}
+			if cf, ok := m.closureCode(st, f); ok {
+				return m.ctx.Bool(cf == target)
+			}
+			a := m.heapGet(st, "clo.fn", ArrSort(IntSort, IntSort))
+			return m.ctx.And(m.ctx.Neq(f, m.ctx.Int(0)), m.ctx.Eq(m.ctx.Select(a, f), m.fnCode(target)))
+		},
+		"closureVar": func(m *Machine, st *State, fr *Frame, instr ssa.Instruction, fn *ssa.Function, args []Value) Value {
+			f := args[0].(*Term)
+			name := constStringArg(instr, 1)
+			idx := m.constIntArg(instr, 2, args[2])
+			target := m.P.Funcs[name]
+			rt := fn.Signature.Results().At(0).Type()
+			if target == nil || idx >= len(target.FreeVars) {
+				m.problem("closureVar: function %q / variable %d not found in the current tree", name, idx)
+				return m.ts.Zero(rt)
+			}
+			if !types.Identical(target.FreeVars[idx].Type(), rt) {
+				m.problem("closureVar: captured variable %d of %s has type %s, clause expects %s", idx, name, target.FreeVars[idx].Type(), rt)
+				return m.ts.Zero(rt)
+			}
+			return m.closureBindings(st, f, target)[idx]
+		},
+		"sameFunc": func(m *Machine, st *State, fr *Frame, instr ssa.Instruction, fn *ssa.Function, args []Value) Value {
+			return m.ctx.Eq(args[0].(*Term), args[1].(*Term))
+		},
+		"sameSlice": func(m *Machine, st *State, fr *Frame, instr ssa.Instruction, fn *ssa.Function, args []Value) Value {
+			a, b := args[0].(*Slice), args[1].(*Slice)
+			return m.ctx.And(m.ctx.Eq(a.Arr, b.Arr), m.ctx.Eq(a.Off, b.Off), m.ctx.Eq(a.Len, b.Len))
+		},
 		"ghostTrue": func(m *Machine, st *State, fr *Frame, instr ssa.Instruction, fn *ssa.Function, args []Value) Value {
 			return m.ctx.T
 		},
